@@ -355,61 +355,41 @@ Record case := mkR {
   w_kind : conn_kind;          (* concrete type of the connection Handle was given *)
   w_segs : list bytes;         (* the client's writes (datagram services: one datagram) *)
   w_reply : list bytes;        (* the backend's reply writes (datagram: at most one) *)
-  w_parses_l : list bool;      (* oracle (miekg/dns): [b] = the datagram unpacks as a DNS message; for dns-proxy over a
-                                  stream the j-th element says whether the client's first j writes together do *)
+  w_parses : bool;             (* oracle (miekg/dns): the datagram / the length-framed message unpacks as a DNS message *)
   o_dials : N;                 (* observed: connections the backend saw *)
   o_backend : bytes;           (* observed: everything the backend received *)
   o_client : bytes;            (* observed: everything the client received *)
-  o_events : N                 (* observed: events of the service's category *)
+  o_events : N;                (* observed: events of the service's category attributed to the client's address *)
+  o_evpayload : bool           (* observed: the event of a datagram that is not DNS carries exactly the datagram as payload *)
 }.
 
-Definition w_parses (c : case) : bool := match w_parses_l c with b :: _ => b | [] => false end.
-
-(* dns-proxy over a stream does one Read of the client: how many of the client's writes
-   that Read returned together (j) is kernel timing, as is how much of the answer its
-   single Read of the backend returned: both are taken from the observation *)
-Definition model_j (c : case) (j : nat) : raw_out :=
+Definition model (c : case) : raw_out :=
   match w_svc c with
   | SCopy => copy_model (w_kind c) (w_segs c) (w_reply c)
-  | SDns =>
-      match type_switch (w_kind c) with
-      | BTcp => dns_model (w_kind c) [concat (firstn j (w_segs c))] (nth (j - 1) (w_parses_l c) false)
-                          (w_reply c) (length (o_client c))
-      | _ => dns_model (w_kind c) (w_segs c) (w_parses c) (w_reply c) 0
-      end
+  | SDns => dns_model (w_kind c) (w_segs c) (w_parses c) (w_reply c)
   end.
-
-Definition agrees_j (c : case) (j : nat) : bool :=
-  let m := model_j c j in
-  (w_dials m =? o_dials c)%N && eqb_bytes (concat (w_backend m)) (o_backend c) &&
-  eqb_bytes (concat (w_client m)) (o_client c) && (w_events m =? o_events c)%N &&
-  (* a Read of a non-empty reply returns at least one byte *)
-  (match w_svc c, type_switch (w_kind c), w_backend m with
-   | SDns, BTcp, _ :: _ => match concat (w_reply c), o_client c with _ :: _, [] => false | _, _ => true end
-   | _, _, _ => true
-   end).
 
 Definition agrees (c : case) : bool :=
-  match w_svc c, type_switch (w_kind c) with
-  | SDns, BTcp => existsb (agrees_j c) (seq 1 (length (w_segs c)))
-  | _, _ => agrees_j c 1
-  end.
+  let m := model c in
+  (w_dials m =? o_dials c)%N && eqb_bytes (concat (w_backend m)) (o_backend c) &&
+  eqb_bytes (concat (w_client m)) (o_client c) && (w_events m =? o_events c)%N && o_evpayload c.
 
 Definition mismatches (cs : list case) : list N := map w_id (filter (fun c => negb (agrees c)) cs).
 
-Definition SIG_COPY_NOTHING := 1%N.     (* copy relayed nothing although handed the connection the server hands it *)
+Definition SIG_COPY_NOTHING := 1%N.     (* copy relayed nothing although handed the connection the server hands it (repaired: 5e72194) *)
 Definition SIG_DNS_NOTHING := 2%N.      (* dns-proxy likewise *)
 Definition SIG_CHANGED := 3%N.          (* relayed bytes differ from what was sent / replied *)
 Definition SIG_EVENT := 4%N.            (* relayed, but not exactly one event *)
 Definition SIG_DIALS := 5%N.            (* more than one backend connection for one client connection *)
-Definition SIG_DNS_NO_EVENT := 6%N.     (* dns-proxy relayed a datagram that is not a DNS message without recording it *)
-Definition SIG_DNS_TCP := 7%N.          (* dns-proxy over a stream: one Read each way - a query in several writes (or with the
-                                           RFC 1035 length prefix) is not relayed, a long reply is cut *)
+Definition SIG_DNS_NO_EVENT := 6%N.     (* dns-proxy relayed a datagram that is not a DNS message without recording it / its payload (repaired: ca56d6d) *)
+Definition SIG_DNS_TCP := 7%N.          (* dns-proxy over a stream: a length-framed query or answer is not relayed whole (repaired: 4e8ef85) *)
 
 Definition wrapped (k : conn_kind) : bool := match k with KTimeout _ => true | _ => false end.
 
 (* the property: the backend receives the client's bytes, the client the backend's
-   reply, one event per relayed exchange, one backend connection *)
+   reply, one event per relayed exchange, one backend connection.  For dns-proxy over a
+   stream the requirement is for a stream that IS a length-framed DNS message (and an
+   answer that is length-framed); anything else is a malformed stream without requirement *)
 Definition case_sigs (c : case) : list N :=
   let sent := concat (w_segs c) in
   let datagram := match local_kind (w_kind c) with AUdp => true | _ => false end in
@@ -419,16 +399,23 @@ Definition case_sigs (c : case) : list N :=
   | [] => []
   | _ =>
       if dns_tcp then
-        if eqb_bytes (o_backend c) sent && eqb_bytes (o_client c) reply && (o_events c =? 1)%N && (o_dials c =? 1)%N
-        then [] else [SIG_DNS_TCP]
+        match read_msg [sent] with
+        | Some (q, _) =>
+            if w_parses c then
+              let want_c := match read_msg [reply] with Some (a, _) => pfx (length a) ++ a | None => [] end in
+              if eqb_bytes (o_backend c) (pfx (length q) ++ q) && eqb_bytes (o_client c) want_c &&
+                 (o_events c =? 1)%N && (o_dials c =? 1)%N
+              then [] else [SIG_DNS_TCP]
+            else []
+        | None => []
+        end
       else if match o_backend c with [] => true | _ => false end then
         [if wrapped (w_kind c)
          then (match w_svc c with SCopy => SIG_COPY_NOTHING | SDns => SIG_DNS_NOTHING end)
          else SIG_CHANGED]
       else
-        (if eqb_bytes (o_backend c) sent && (eqb_bytes (o_client c) reply || (match w_svc c with SDns => negb (w_parses c) | _ => false end))
-         then [] else [SIG_CHANGED])
-        ++ (if (o_events c =? 1)%N then []
+        (if eqb_bytes (o_backend c) sent && eqb_bytes (o_client c) reply then [] else [SIG_CHANGED])
+        ++ (if (o_events c =? 1)%N && o_evpayload c then []
             else [match w_svc c with SDns => if w_parses c then SIG_EVENT else SIG_DNS_NO_EVENT | _ => SIG_EVENT end])
         ++ (if (o_dials c <=? 1)%N then [] else [SIG_DIALS])
   end.
@@ -436,12 +423,13 @@ Definition case_sigs (c : case) : list N :=
 Definition violations (cs : list case) : list (N * N) :=
   nodup_pairs (flat_map (fun c => map (fun s => (w_id c, s)) (case_sigs c)) cs).
 
-(* 1 = default branch of the type switch (nothing relayed), 2 = stream branch,
-   4 = datagram branch, +8 a datagram that is not DNS *)
+(* 1 = default branch of the switch (nothing relayed), 2 = stream branch, 4 = datagram
+   branch, +8 a message that is not DNS, +16 (stream dns) not a complete length-framed message *)
 Definition tags (cs : list case) : list (N * N) :=
   map (fun c => (w_id c,
     (match type_switch (w_kind c) with BDefault => 1 | BTcp => 2 | BUdp => 4 end)
-    + (match w_svc c with SDns => if w_parses c then 0 else 8 | _ => 0 end))%N) cs.
+    + (match w_svc c with SDns => if w_parses c then 0 else 8 | _ => 0 end)
+    + (match w_svc c, type_switch (w_kind c), read_msg (w_segs c) with SDns, BTcp, None => 16 | _, _, _ => 0 end))%N) cs.
 
 End RawCheck.
 
@@ -511,9 +499,7 @@ Definition agrees (c : case) : bool :=
     let relayed := ssh_relay (client_msgs c) [] in
     eqb_list eqb_smsg (reqs_of relayed) (o_breqs c) && eqb_bytes (data_of relayed) (o_bdata c) &&
     eqb_bytes (o_cdata c) (relay_until_close (z_reply c) []) &&
-    (* the reply to a request that the backend answers just before it closes the channel can
-       lose the race against the close (what the client was told is a prefix) - timing, from the observation *)
-    prefix_list Bool.eqb (o_replies c) (want_replies (z_reqs c)) &&
+    eqb_list Bool.eqb (o_replies c) (want_replies (z_reqs c)) &&
     eqb_list eqb_bytes (req_types (z_reqs c)) (o_evreqs c) && (o_evchan c =? 1)%N && (o_evsess c =? 1)%N &&
     (if z_texty c && eqb_bytes (o_cdata c) (concat (z_reply c)) then eqb_bytes (o_rec c) (sanitize (concat (z_reply c))) else true)
   else
@@ -531,7 +517,7 @@ Definition SIG_DOWN := 4%N.
 Definition SIG_EVENT := 5%N.
 Definition SIG_CONNS := 6%N.
 Definition SIG_STATUS := 7%N.
-Definition SIG_REPLY_RACE := 9%N.     (* the client was never told the outcome of a request the backend answered right before closing the channel *)
+Definition SIG_REPLY_RACE := 9%N.     (* the client was never told the outcome of a request the backend answered right before closing the channel (repaired: e6ccfa1) *)
 Definition SIG_TRUNCATED := 8%N.      (* the client received only a proper prefix of the backend's channel data / request replies (repaired: fc51d79) *)
 
 (* the property on the observation: the backend sees the presented credentials, attempt
